@@ -1,4 +1,4 @@
 From Coq Require Import ExtrOcamlBasic NArith List.
-From LV Require Import lib.Conv model.Buffer model.Processor spec.ProcessorSpec.
+From LV Require Import lib.Conv model.Buffer model.Processor model.ProcessorOuter spec.ProcessorSpec.
 Extraction "model.ml" conv_roots prun_tbl pstep_run plog buf inc total_num total_size held_n held_s warned
-  c15_first_failure p4_walk all_events.
+  c15_first_failure p4_walk all_events orun osem_n osem_s ocore.
